@@ -113,7 +113,7 @@ func schedExplore(res *vResult, prop string, scenario any, scName string, bound 
 					res.finding(sig, fmt.Sprintf("%s [scenario %s, %d deviations, schedule of %d choices]", v.Desc, scName, it.cost, len(ch)), schedCase{Scenario: scenario, Choices: ch, Sigs: sg})
 				}
 			}
-			cost := it.cost
+			cost := 0 // deviations spent before point i (the trace includes the prefix's choices)
 			for i := 0; i < len(s.Trace); i++ {
 				cp := s.Trace[i]
 				if i >= len(it.prefix) {
